@@ -15,3 +15,6 @@ fp("dask/array/core.py", "concatenate", "stack", "block")
 fp("dask/array/creation.py", "repeat", "tile", "pad", "pad_edge", "pad_reuse", "pad_stats", "get_pad_shapes_chunks", "expand_pad_value")
 fp("dask/array/routines.py", "flip", "rot90", "roll", "diff", "tril", "triu", "take", "squeeze", "expand_dims", "transpose", "swapaxes")
 fp("dask/array/_shuffle.py", "shuffle", "_shuffle", "_calculate_new_chunksizes", "_rechunk_other_dimensions")
+fp("dask/array/routines.py", "_bincount_agg", "bincount", "digitize", "_searchsorted_block", "searchsorted", "_block_hist",
+   "histogram", "histogram2d", "histogramdd", "_unique_internal", "unique", "isin", "_isin_kernel", "argwhere", "nonzero",
+   "flatnonzero", "count_nonzero", "unravel_index", "ravel_multi_index", "aligned_coarsen_chunks", "coarsen", "compress", "extract")
